@@ -323,3 +323,109 @@ pub fn run_rootops(cfgs: &[String], out_dir: &Path) -> Value {
     out.finish();
     json!({"cfg":"rootops","mode":"root-operations","names":"ascii","b":1,"events":out.total_events,"segments":out.segments,"edges_run":n * 19 * 4,"distinct_state_ops":n * 19})
 }
+
+/// async counterpart of run_hostile_dir + run_rootops (C13 names the async port explicitly)
+pub fn run_async_hostile(cfgs: &[String], out_dir: &Path) -> Value {
+    use crate::aworld::abuild;
+    use futures::{AsyncReadExt, AsyncWriteExt, StreamExt};
+    use std::os::unix::ffi::OsStringExt;
+    use vfs::async_vfs::AsyncVfsPath;
+    let mut out = TraceOut::new(out_dir, "ahostile");
+    let mut n = 0u64;
+    for cfg in cfgs {
+        let w = abuild(cfg, false);
+        let root = w.root.clone();
+        let mut ops = vec![];
+        let mut rec = |op: &str, c: &str| ops.push(json!({"op":op,"c":c}));
+        macro_rules! run {
+            ($name:expr, $fut:expr) => {{
+                let r = guard(|| w.rt.block_on(async { $fut.await }));
+                rec(&$name, cls(r));
+            }};
+        }
+        let _ = guard(|| w.rt.block_on(async {
+            let _ = root.join("d")?.create_dir().await;
+            let mut h = root.join("f")?.create_file().await?;
+            let _ = h.write_all(b"x").await;
+            let _ = h.close().await;
+            let mut h = root.join("d/g")?.create_file().await?;
+            let _ = h.write_all(b"y").await;
+            let _ = h.close().await;
+            Ok::<(), vfs::VfsError>(())
+        }));
+        // hostile directory content where a physical directory backs the root
+        if let Some(sandbox) = w.tmp.get(0) {
+            let mut backing = sandbox.join("root");
+            if let crate::cfg::Term::Alt(dir, _) = &w.term {
+                for c in dir {
+                    backing = backing.join(c);
+                }
+            }
+            for dir in [backing.clone(), backing.join("d")] {
+                let bad = std::ffi::OsString::from_vec(vec![b'n', 0xFF, 0xFE, b'x']);
+                let _ = std::fs::write(dir.join(&bad), b"non-utf8 name");
+                let _ = std::os::unix::fs::symlink("/nonexistent/target", dir.join("dangling"));
+                let _ = std::os::unix::fs::symlink("loop", dir.join("loop"));
+            }
+        }
+        async fn count_dir(p: &AsyncVfsPath) -> vfs::VfsResult<usize> {
+            Ok(p.read_dir().await?.take(200).count().await)
+        }
+        async fn count_walk(p: &AsyncVfsPath) -> vfs::VfsResult<usize> {
+            Ok(p.walk_dir().await?.take(200).count().await)
+        }
+        async fn slurp(p: &AsyncVfsPath) -> vfs::VfsResult<usize> {
+            let mut h = p.open_file().await?;
+            let mut b = vec![];
+            let _ = h.read_to_end(&mut b).await;
+            Ok(b.len())
+        }
+        async fn put(p: &AsyncVfsPath, append: bool) -> vfs::VfsResult<()> {
+            let mut h = if append { p.append_file().await? } else { p.create_file().await? };
+            let _ = h.write_all(b"q").await;
+            let _ = h.close().await;
+            Ok(())
+        }
+        run!("read_dir(root)".to_string(), count_dir(&root));
+        run!("walk_dir(root)".to_string(), count_walk(&root));
+        for name in ["dangling", "loop", "d/dangling", "d/loop", "f", "d", "missing", ""] {
+            let p = match root.join(name) {
+                Ok(p) => p,
+                Err(_) => continue,
+            };
+            let x = root.join("copy_of").unwrap();
+            run!(format!("exists({name})"), p.exists());
+            run!(format!("metadata({name})"), p.metadata());
+            run!(format!("is_dir({name})"), p.is_dir());
+            run!(format!("is_file({name})"), p.is_file());
+            run!(format!("read_dir({name})"), count_dir(&p));
+            run!(format!("walk_dir({name})"), count_walk(&p));
+            run!(format!("open_file({name})"), slurp(&p));
+            run!(format!("read_to_string({name})"), p.read_to_string());
+            run!(format!("create_dir({name})"), p.create_dir());
+            run!(format!("create_dir_all({name})"), p.create_dir_all());
+            run!(format!("create_file({name})"), put(&p, false));
+            run!(format!("append_file({name})"), put(&p, true));
+            run!(format!("set_mtime({name})"), p.set_modification_time(tick(2)));
+            run!(format!("set_ctime({name})"), p.set_creation_time(tick(2)));
+            run!(format!("set_atime({name})"), p.set_access_time(tick(2)));
+            run!(format!("copy_file({name})"), p.copy_file(&x));
+            run!(format!("copy_file(->{name})"), root.join("f").unwrap().copy_file(&p));
+            run!(format!("move_file(->{name})"), root.join("f").unwrap().move_file(&p));
+            run!(format!("remove_file({name})"), p.remove_file());
+            run!(format!("remove_dir({name})"), p.remove_dir());
+            run!(format!("exists(root) after {name}"), root.exists());
+            run!(format!("read_dir(root) after {name}"), count_dir(&root));
+        }
+        run!("copy_dir(d)".to_string(), root.join("d").unwrap().copy_dir(&root.join("d2").unwrap()));
+        run!("move_dir(d)".to_string(), root.join("d").unwrap().move_dir(&root.join("d3").unwrap()));
+        run!("remove_dir_all(d3)".to_string(), root.join("d3").unwrap().remove_dir_all());
+        run!("remove_dir_all(root)".to_string(), root.remove_dir_all());
+        run!("walk_dir(root) again".to_string(), count_walk(&root));
+        out.begin(&json!({"ev":"hostile","kindtag":"ahostile","cfg":format!("async:{cfg}"),"arg":"<async port: hostile directory content, operations on the root, wrong-typed targets>","prefix":[],
+            "join":{"c":"ok","path":""},"ops":ops,"ucalls":[],"outside_before":[],"outside_after":[],"leak":false,"shape":{"dotdot":false,"dslash":false,"abs":false}}));
+        n += 1;
+    }
+    out.finish();
+    json!({"cfg":"ahostile","mode":"async-hostile","names":"ascii","b":1,"events":out.total_events,"segments":out.segments,"edges_run":n * 190,"distinct_state_ops":n * 190})
+}
